@@ -14,6 +14,7 @@ import numpy as np
 import common
 import popgen
 import t3
+import t4
 
 
 def simulate_with(df, params, functions, nodes, **kw):
@@ -82,6 +83,7 @@ def run(tier: str) -> int:
     common.build_and_audit(r, ["C06", "C06Sim"], leanchecker=not quick)
     rnd = common.rng("C06")
     t3.run_t3(r, 1000 * common.seed() + 6, 40 if quick else 600)
+    t4.run_t4_quick(r, common.rng("C06-T4"), quick)
     for date in (popgen.DATES_QUICK if quick else popgen.DATES_2015[::2]):
         params, functions = popgen.env(date)
         dag, fno = popgen.graph(date)
